@@ -176,6 +176,22 @@ EXTRA6 = {
  "C20": " Also: State.List decides about the recovery mailbox from GetMailboxMessageCount.",
 }
 
+EXTRA7 = {
+ "C04": " Also: no function of internal/state / internal/backend permutes a slice parameter in place (request order = UID order).",
+ "C15": " Also: the numbers handed to response.Search originate only from Mailbox.Search (where UID vs sequence number is decided).",
+ "C20": " R20.4 now also treats a caller-supplied mailbox as possibly the recovery mailbox.",
+ "C03": " Also: per-flag index writes pick their ids out of the unfiltered rows tx.GetMessagesFlags returned.",
+ "C05": " Also: the responder queue (State.res) receives every responder queueResponder is given, on every path.",
+ "C09": " Also: only a failed parse of the file name keeps a stored entry out of List.",
+ "C10": " Also: Scanner.ConsumeBytes (which prepends the look-ahead byte) is never executed twice without an advance of the scanner in between.",
+ "C11": " Also: a method of a command's payload is called only where the error that came with the command was found nil.",
+ "C12": " Also: every string converted to rfc822.MIMEType is a constant, a mime.ParseMediaType result or lower-cased.",
+ "C13": " Also: a size returned next to an io.MultiReader over byte slices equals, as a linear expression, the sum of the lengths of the parts.",
+ "C14": " Also: no connector update is acknowledged as a no-op because two names are equal ignoring case (shared with C06).",
+ "C16": " Also: no UID / SeqID is incremented in the 32-bit domain where message sets are resolved.",
+ "C17": " Also: the room of a mailbox is measured only after the function's removals from that mailbox.",
+}
+
 for i in ids:
     if i in impl and i in T:
         lt, ln, tech, ref = T[i]
@@ -186,7 +202,7 @@ for i in ids:
             "evidence_file": f"evidence/{i}.json",
             "replay_cmd_template": "./bin/verifcheck -replay {path}",
             "engine": "verifcheck",
-            "level_claimed": {"category": "other", "text": lt + EXTRA.get(i, "") + EXTRA3.get(i, "") + EXTRA4.get(i, "") + EXTRA5.get(i, "") + EXTRA6.get(i, ""), "design_ref": ref},
+            "level_claimed": {"category": "other", "text": lt + EXTRA.get(i, "") + EXTRA3.get(i, "") + EXTRA4.get(i, "") + EXTRA5.get(i, "") + EXTRA6.get(i, "") + EXTRA7.get(i, ""), "design_ref": ref},
             "level_note": ln,
             "technique": tech,
         })
